@@ -657,7 +657,7 @@ func main() {
 		}
 	}
 	run(kase{Kind: "recur", Seed: 1})
-	n := e.N(6, 40)
+	n := e.N(6, 20)
 	for i := 0; i < n; i++ {
 		run(kase{Kind: "random", Seed: e.Rng.U64() % 1000000, Steps: e.N(30, 60)})
 	}
